@@ -209,6 +209,27 @@ def command_property(prop, tier, seed, selkey=None, level="proof"):
         else:
             rep.bounded = dict(part, label="bounded (never counted as proved)")
     if prop == "C09":
+        # a consumer that rejects its inputs (different shapes) is a consumer too: the results it was given stay as they were, shape included
+        t1 = time.time()
+        scases = cmdprops.shape_confusion_cases(repo, classes, [n for n in cmdprops.ALL_DATA if n in classes], tier, seed)
+        souts = replay.run_real(scases, repo_root=root)
+        sfails = 0
+        for c, o in zip(scases, souts):
+            if o.get("outcome") == "harness-error":
+                rep.errors.append("shape/frame battery: %s" % (o.get("error", "")[-300:],))
+            elif o.get("inputs_after") != o.get("inputs_before"):
+                sfails += 1
+                rep.violations.append({"obligation": "%s::%s.execute/bounded:inputs-unchanged-when-rejected" % (classes[c["class"]].module.relpath, c["class"]),
+                                       "function": "%s::%s.execute" % (classes[c["class"]].module.relpath, c["class"]), "how": "bounded-concrete", "case": c,
+                                       "real": {"before": o.get("inputs_before"), "after": o.get("inputs_after")}, "violated": ["frame"], "confirmed": True})
+        part = {"name": "inputs-unchanged-when-rejected", "evaluations": len(scases), "distinct_nontrivial": len(scases), "failures": sfails, "wall_s": round(time.time() - t1, 1),
+                "rule": "every command with two or more data inputs on 12 pairs of different shapes (both roles): kind, element type, shape, missing cells and values of every input are compared before and after"}
+        prev = rep.bounded
+        if prev:
+            rep.bounded = dict(prev, parts=(prev.get("parts") or [dict(prev, name="per-command")]) + [part], evaluations=prev.get("evaluations", 0) + part["evaluations"],
+                               distinct_nontrivial=prev.get("distinct_nontrivial", 0) + part["distinct_nontrivial"], failures=prev.get("failures", 0) + sfails)
+        else:
+            rep.bounded = dict(part, label="bounded (never counted as proved)")
         # the writers are consumers too: their frame obligations (proved on the real bodies) belong to this property
         try:
             from . import ioprops, loadrun
@@ -222,6 +243,23 @@ def command_property(prop, tier, seed, selkey=None, level="proof"):
         # ... and on real files: writing one or several results (with different missing cells) leaves each of them as it was
         from . import iocases
 
+        # the readers produce results too: one read earlier stays as it was when the same column / variable is read again with other options
+        rc = iocases.reread_cases()
+        ro = iocases.run_real(rc, root)
+        rf = 0
+        for c, o in zip(rc, ro):
+            bad = iocases.judge_reread(c, o)
+            if any(b[0] == "harness-error" for b in bad):
+                rep.errors.append("reread battery: %s" % bad[0][1])
+            elif bad:
+                rf += 1
+                rep.violations.append({"obligation": "mpilot/libraries/eems/%s/io.py::EEMSRead.execute/bounded:result-survives-later-reads" % ("csv" if c["kind"].startswith("csv") else "netcdf"),
+                                       "function": "EEMSRead.execute", "how": "bounded-concrete", "case": c, "real": o, "violated": ["frame"], "violated_detail": bad, "confirmed": True})
+        rpart = {"name": "result-survives-later-reads", "evaluations": sum(len(c["then"]) for c in rc), "distinct_nontrivial": len(rc), "failures": rf,
+                 "rule": "a column / variable read once and kept, then read again with every other combination of missing value, element type and fuzzy clamp (CSV and NetCDF)"}
+        prev = rep.bounded
+        rep.bounded = dict(prev, parts=(prev.get("parts") or [dict(prev, name="per-command")]) + [rpart], evaluations=prev.get("evaluations", 0) + rpart["evaluations"],
+                           distinct_nontrivial=prev.get("distinct_nontrivial", 0) + rpart["distinct_nontrivial"], failures=prev.get("failures", 0) + rf) if prev else dict(rpart, label="bounded (never counted as proved)")
         wc = [c for c in iocases.csv_cases(tier, seed) if c["kind"] == "csv_roundtrip"] + [c for c in iocases.nc_cases(tier, seed) if c["kind"] == "nc_roundtrip"]
         wo = iocases.run_real(wc, root)
         wf = 0
@@ -579,8 +617,9 @@ def heap_property(prop, tier, seed):
             rep.violations.append({"obligation": "%s::%s/CI-FUZZY: is_fuzzy is a class attribute, not a method or property" % (ci.module.relpath, ci.name),
                                    "how": "syntactic (class invariant assumed by the contracts of Command.run / ResultParameter.clean)", "confirmed": False,
                                    "detail": {"goal": "reading is_fuzzy runs %s" % fi_.key}})
-    if prop == "C01":
-        # touches-all-refs of the built-in execute bodies (the part of the plugin contract that is proved)
+    if prop in ("C01", "C14"):
+        # touches-all-refs of the built-in execute bodies (the part of the plugin contract that is proved); for C14 this is what makes a
+        # cycle of references a cycle of *calls*: a reference that execute does not follow cannot meet a running command
         repo = Repo(root)
         SPECS, classes = registry.load(repo)
         names, clauses = cmdprops.SELECT["C01cmd"]
@@ -798,6 +837,14 @@ def parser_property(prop, tier, seed):
     outs = parsecases.run_real(cases, root)
     clause = {"C10": ("value", "raises_only"), "C11": ("lineno",)}[prop]
     rules, ignore = lexprops.extract_rules(repo) if info is not None else ([], "")
+    pinned_rules, pinned_ignore = [], ""
+    try:
+        from types import SimpleNamespace
+
+        pj = json.load(open(os.path.join(os.path.dirname(os.path.dirname(os.path.abspath(__file__))), "baseline", "lexer_rules.json")))
+        pinned_rules, pinned_ignore = [SimpleNamespace(**r) for r in pj["rules"]], pj["ignore"]
+    except Exception:
+        pass
     distinct, fails = set(), 0
     for c, o in zip(cases, outs):
         distinct.add(c["sources"][-1])
@@ -811,7 +858,9 @@ def parser_property(prop, tier, seed):
         # signature of the recorded finding: text rejected with SyntaxError whose unquoted value ends in a number token after other tokens
         if prop == "C10" and all(b[0] == "value" and "rejected with SyntaxError" in b[2] for b in bad):
             for text in c.get("plains", []):
-                toks = simulate_lexer(rules, ignore, text)
+                # the recorded finding is a fixed class of inputs: tokenised with the rules recorded from the pinned tree (baseline/lexer_rules.json),
+                # so an input that the pinned tree lexes as one token and the tree under check splits is *not* the recorded finding
+                toks = simulate_lexer(pinned_rules, pinned_ignore, text) if pinned_rules else []
                 if len(toks) >= 2 and toks[-1][0] in ("INT", "FLOAT") and any(t[0] in ("ID", "PLAIN_STRING") for t in toks[:-1]):
                     v["known_id"] = "C10-unquoted-text-ending-in-a-number"
         rep.violations.append(v)
